@@ -146,6 +146,10 @@ def run_gen(case, R):
             x = data.build(m)
     with R.lib('write'):
         x.write(f1, meshfilename=(mesh1 or ''), extra_precision=xp_arg, echo_extra_precision=echo)
+        if case.get('twice', len(m['title']) % 2 == 1):
+            # the same model written again under the same names: the files are simply written anew
+            R.label('written-twice-to-the-same-files')
+            x.write(f1, meshfilename=(mesh1 or ''), extra_precision=xp_arg, echo_extra_precision=echo)
     written_xp = [k for k in xp_secs if k in secs]
     in_main_xp = written_xp if not echo else []
     exp = data.through_format(m, xp_sections=[data.XP_SECTIONS[k] for k in written_xp])
